@@ -16,12 +16,16 @@ for n in names:
     if subprocess.run(["git", "-C", "/repo", "apply", os.path.join(d, "patch.diff")]).returncode != 0:
         results[n] = {"property": prop, "error": "patch does not apply"}; print(n, "PATCH DOES NOT APPLY"); continue
     t0 = time.time()
+    evp = os.path.join(V, "evidence", prop + ".json")
+    keep = open(evp).read() if os.path.exists(evp) else None     # evidence must only ever describe the unchanged tree
     try:
         p = subprocess.run([os.path.join(V, "vcheck"), prop, "--tier", "quick"], cwd=V, capture_output=True, text=True, timeout=3000)
         out, rc = p.stdout, p.returncode
     finally:
         subprocess.run(["git", "-C", "/repo", "checkout", "--", "."])
         subprocess.run([sys.executable, os.path.join(V, "tools", "extract.py")], capture_output=True)   # coq/gen back to the unchanged tree
+        if keep is not None:
+            open(evp, "w").write(keep)
     viol = [l for l in out.splitlines() if l.startswith("VIOLATION")]
     found = [l for l in viol if not l.endswith("no-failing-input-found")]
     keys = []
